@@ -12,7 +12,7 @@ def _cmp_call(e, o, path):
         ev, ov = getattr(e, f), getattr(o, f)
         if ev != ov:
             return f"{path}{o.brief()}: {f} expected {ev!r} observed {ov!r}"
-    if e.tidx is not None and e.tidx != o.tidx:
+    if e.tidx is not None and o.tidx is not None and e.tidx != o.tidx:
         return f"{path}{o.brief()}: transition index expected {e.tidx} observed {o.tidx}"
     if e.cur != o.cur or type(e.cur) is not type(o.cur):
         return f"{path}{o.brief()}: current state value seen inside expected {e.cur!r} observed {o.cur!r}"
@@ -69,12 +69,14 @@ def match_groups(exp, obs, path="", strict_guards=False):
             allowed.update(g.optional)
             seen = {}
             while i < n_obs and obs[i].kind == "guard" and obs[i].cid in allowed \
-                    and (obs[i].tidx == g.tidx or g.tidx is None):
+                    and (obs[i].tidx == g.tidx or g.tidx is None or obs[i].tidx is None):
                 o = obs[i]
                 if o.cid in seen and o.cid in g.required:
                     return f"{path}guard {o.brief()} read twice for one candidate"
                 seen[o.cid] = o.value
                 i += 1
+                if g.values.get(o.cid) is False:
+                    break      # a guard that disables the candidate ends its evaluation
             if g.mode == "guards-raise":
                 continue
             if g.verdict:
